@@ -48,6 +48,11 @@ fn rejected_menu(cfg: &Cfg, w: &World) -> Vec<(&'static str, Event)> {
     let finished: Option<usize> = (0..w.reqs.len()).rev().find(|i| !w.reqs[*i].awaiting());
     let first_ok = accepted_menu(cfg).into_iter().find(|r| r.class == RClass::Success).unwrap_or(Reply::plain(RClass::Success));
     v.push(("reply-for-unknown-id", Event::Deliver { to: Target::Unknown, reply: first_ok }));
+    // ... and for ids that merely look like an outstanding one (rotating through the look-alike kinds with the history)
+    if let Some(i) = awaiting.last() {
+        let k = (w.reqs.len() * 5 + w.snapshot().timeouts.len() + awaiting.len() * 3) as u8;
+        v.push(("reply-for-unknown-id", Event::Deliver { to: Target::Near(*i, k), reply: first_ok }));
+    }
     if let Some(i) = finished {
         v.push(("reply-for-finished-id", Event::Deliver { to: Target::Req(i), reply: first_ok }));
     }
@@ -58,6 +63,8 @@ fn rejected_menu(cfg: &Cfg, w: &World) -> Vec<(&'static str, Event)> {
             v.push(("bad-fingerprint", Event::Deliver { to: t.clone(), reply: first_ok.with_fp(RFp::Bad) }));
             v.push(("missing-fingerprint", Event::Deliver { to: t.clone(), reply: first_ok.with_fp(RFp::Absent) }));
             v.push(("misplaced-fingerprint", Event::Deliver { to: t.clone(), reply: first_ok.with_fp(RFp::MisplacedWrongLen) }));
+            v.push(("wrong-fingerprint-with-trailer-beyond-the-message", Event::Deliver { to: t.clone(), reply: first_ok.with_fp(RFp::BadWithResidueTrailer) }));
+            v.push(("wrong-fingerprint-with-trailer-beyond-the-message", Event::Deliver { to: t.clone(), reply: first_ok.with_fp(RFp::BadWithLookalikeTrailer) }));
             v.push(("wrong-fingerprint-then-decoy", Event::Deliver { to: t.clone(), reply: first_ok.with_fp(RFp::BadThenDecoy) }));
             v.push(("wrong-fingerprint-then-second-fingerprint", Event::Deliver { to: t.clone(), reply: first_ok.with_fp(RFp::BadThenSecondFp) }));
         }
@@ -166,7 +173,7 @@ fn must_reject_kind(cfg: &Cfg, ev: &Event, finals_before: &[usize]) -> Option<&'
         Event::RawBytes(_) => Some("undecodable-bytes"),
         Event::Deliver { reply, .. } if reply.class == RClass::Request => Some("request-class"),
         Event::Deliver { reply, .. } if cfg.fingerprint && reply.fp != RFp::Valid => Some("bad-or-missing-fingerprint"),
-        Event::Deliver { to: Target::Unknown, reply } if matches!(reply.class, RClass::Success | RClass::Error(_) | RClass::ErrorNoCode) => Some("reply-for-unknown-id"),
+        Event::Deliver { to: Target::Unknown | Target::Near(..), reply } if matches!(reply.class, RClass::Success | RClass::Error(_) | RClass::ErrorNoCode) => Some("reply-for-unknown-id"),
         Event::Deliver { to: Target::Req(i), reply } if matches!(reply.class, RClass::Success | RClass::Error(_) | RClass::ErrorNoCode) && finals_before.get(*i).copied().unwrap_or(0) > 0 => {
             Some("reply-for-finished-id")
         }
@@ -413,7 +420,7 @@ pub fn run(ctx: &RunCtx) -> i32 {
         rep,
         Finish {
             level: "model_checking",
-            rule: format!("breadth-first exploration of the real client to depth {} for 8 transport x mechanism x fingerprint configurations (limit 3) over {{Send, Timer, AdvanceTo, Deliver(accepted reply kinds of the mechanism incl. 401 / 438 challenges), every rejected-buffer kind: undecodable (garbage, truncated), request class, reply for an unknown id, reply for a finished id, bad / missing / misplaced FINGERPRINT, a wrong FINGERPRINT followed by a decoy attribute or by a second FINGERPRINT, auth-failing response on unreliable transport (corrupted, absent, other password), both-MACs response, wrong-algorithm response, 401 without realm / nonce, 438 without nonce (also carrying a valid / invalid integrity attribute), an error response without ERROR-CODE (5 integrity variants), a long-term success response with both MACs, complete 401 / 438 challenges (new realm / nonce / algorithms) whose own integrity attribute fails, indication failing authentication / without integrity}}. A buffer of a kind the statement lists as rejected (undecodable bytes, a request, a response for an unknown or finished id, a bad / missing fingerprint) that is accepted is a violation in itself. Direct oracle on every transition whose call returned Err: no events and a byte-identical canonical snapshot before/after, the only tolerated change being one added violated marker for a response on unreliable transport with credentials. A directed run with 40 (thorough up to 260) requests outstanding, each rejected twice for failing authentication, checks that a rejection touches no marker but its own. Differential oracle at every visited state: a fixed continuation (all outstanding requests driven to their final outcome by the pending deadlines, one more exchange, RTO of the new request, final snapshot) is run with and without each rejected kind inserted and must produce identical observations (only TimedOut -> ProtectionViolated for the affected request may differ)", depth),
+            rule: format!("breadth-first exploration of the real client to depth {} for 8 transport x mechanism x fingerprint configurations (limit 3) over {{Send, Timer, AdvanceTo, Deliver(accepted reply kinds of the mechanism incl. 401 / 438 challenges), every rejected-buffer kind: undecodable (garbage, truncated), request class, reply for an unknown id, reply for a finished id, bad / missing / misplaced FINGERPRINT, a wrong FINGERPRINT followed by a decoy attribute or by a second FINGERPRINT, a wrong FINGERPRINT with crafted bytes in the buffer beyond the end of the message (CRC-residue trailer, FINGERPRINT look-alike), auth-failing response on unreliable transport (corrupted, absent, other password), both-MACs response, wrong-algorithm response, 401 without realm / nonce, 438 without nonce (also carrying a valid / invalid integrity attribute), an error response without ERROR-CODE (5 integrity variants), a long-term success response with both MACs, complete 401 / 438 challenges (new realm / nonce / algorithms) whose own integrity attribute fails, indication failing authentication / without integrity}}. A buffer of a kind the statement lists as rejected (undecodable bytes, a request, a response for an unknown or finished id, a bad / missing fingerprint) that is accepted is a violation in itself. Direct oracle on every transition whose call returned Err: no events and a byte-identical canonical snapshot before/after, the only tolerated change being one added violated marker for a response on unreliable transport with credentials. A directed run with 40 (thorough up to 260) requests outstanding, each rejected twice for failing authentication, checks that a rejection touches no marker but its own. Differential oracle at every visited state: a fixed continuation (all outstanding requests driven to their final outcome by the pending deadlines, one more exchange, RTO of the new request, final snapshot) is run with and without each rejected kind inserted and must produce identical observations (only TimedOut -> ProtectionViolated for the affected request may differ)", depth),
             assumptions: vec!["the feature-gated snapshot renders every field of StunClient except the stateless encoder / decoder".into()],
             required_symbols: vec!["bfs-configs", "rejected-and-unchanged", "marker-exception", "continuation-identical", "undecodable-garbage", "request-class", "reply-for-unknown-id", "reply-for-finished-id", "bad-fingerprint", "missing-fingerprint", "both-macs-response", "wrong-algorithm-response", "401-without-realm", "438-without-nonce", "401-failing-auth-unreliable", "438-failing-auth-unreliable", "error-response-without-error-code", "438-without-nonce-with-integrity", "indication-failing-auth", "many-marked-requests"],
             min_outcomes: 8,
